@@ -549,7 +549,7 @@ impl<T: SerializableType> SerializableType for Vec<T> {
     
     fn deserialize<I: DataInput>(input: &mut I) -> Result<Self> {
         let len = input.read_u32()? as usize;
-        let mut vec = Vec::with_capacity(len);
+        let mut vec = Vec::with_capacity(len.min(1024)); // len is an unvalidated prefix: grow as items really arrive
         for _ in 0..len {
             vec.push(T::deserialize(input)?);
         }
